@@ -240,7 +240,7 @@ impl<const N: usize> AEADCipherCodec<N> {
 
         let nonce_length = udp::nonce_length(self.kind);
         let tag_size = self.kind.tag_size();
-        let header_length = nonce_length + tag_size + 8 + 8 + 1 + 8 + 2;
+        let header_length = nonce_length + tag_size + 8 + 8 + 1 + 8 + 8 + 2;
         if src.remaining() < header_length {
             bail!("packet too short, at least {} bytes, but found {} bytes", header_length, src.remaining());
         }
@@ -255,6 +255,9 @@ impl<const N: usize> AEADCipherCodec<N> {
         aead_2022::validate_timestamp(packet.get_u64()).map_err(anyhow::Error::msg)?;
         let client_session_id = packet.get_u64();
         let padding_length = packet.get_u16();
+        if packet.remaining() < padding_length as usize {
+            bail!("invalid padding length, expecting {} bytes, but found {} bytes", padding_length, packet.remaining());
+        }
         if padding_length > 0 {
             packet.advance(padding_length as usize);
         }
@@ -327,6 +330,9 @@ impl<const N: usize> AEADCipherCodec<N> {
         }
         aead_2022::validate_timestamp(packet.get_u64()).map_err(anyhow::Error::msg)?;
         let padding_length = packet.get_u16();
+        if packet.remaining() < padding_length as usize {
+            bail!("invalid padding length, expecting {} bytes, but found {} bytes", padding_length, packet.remaining());
+        }
         if padding_length > 0 {
             packet.advance(padding_length as usize);
         }
